@@ -35,7 +35,9 @@ PROPS = {
     "C04": dict(level="exploration"),
     "C05": dict(level="exploration"),
     "C06": dict(level="fault_enumeration"),
-    "C07": dict(level="exploration", race=True, shards=(1, 4)),
+    # C07: the first race_shards shards run the race-detector build (about 10x slower, few cases), the others
+    # the plain build (many cases: state leaking from one compilation to the next needs no race detector)
+    "C07": dict(level="exploration", race=True, shards=(4, 8), race_shards=(1, 4)),
     "C08": dict(level="exploration"),
     "C09": dict(level="exploration", cli=True),
     "C10": dict(level="exploration"),
@@ -181,7 +183,8 @@ def check(pid, tier):
     os.makedirs(outdir)
     # stale rapid fail files would be replayed first
     shutil.rmtree(os.path.join(HARNESS, "checks", "testdata", "rapid"), ignore_errors=True)
-    shards = [run_shard(pid, tier, seed, i, nshards, race, timeout, outdir) for i in range(nshards)]
+    nrace = conf.get("race_shards", (nshards, nshards))[ti] if race else 0
+    shards = [run_shard(pid, tier, seed, i, nshards, i < nrace, timeout, outdir) for i in range(nshards)]
     inconclusive = []
     for s in shards:
         try:
